@@ -53,6 +53,8 @@ theorem Micro.pod_names {jo : JobObj} {sp s s' : Sys} (hm : Micro jo sp s s') :
     rw [apiUpdateJob_pods] at hn; exact Or.inl hn
   | updStatus =>
     rw [apiUpdateJobStatus_pods] at hn; exact Or.inl hn
+  | updStatusOn s1 hs1 hs hok =>
+    rw [apiUpdateJobStatus_pods] at hn; exact Or.inl hn
 
 theorem Micros.pod_names {jo : JobObj} {sp s s' : Sys} (hm : Micros jo sp s s') :
     ∀ n ∈ podNames s'.pods, NameOrigin s.d jo (podNames s.pods) n := by
